@@ -225,6 +225,26 @@ func c20Gen(c *Ctx) (cs c20Case, cell string) {
 		}
 		cs.Word = string(w)
 		cell = "word-of-hundreds-of-characters"
+		if n >= 1024 && r.Bool() {
+			// ... and a command name of the same size, one or two slips away from it
+			nm := mutateWord(r, mutateWord(r, cs.Word, alpha), alpha)
+			if nm != cs.Word && !strings.HasPrefix(nm, "-") {
+				cs.Visible = append(cs.Visible, nm)
+				cell = "word-and-name-of-a-thousand-characters"
+			}
+		}
+	}
+	if (k/6)%7 == 2 && len(cs.Visible) > 1 {
+		// a command name that contains the very separators the enumeration is written with
+		i := r.Intn(len(cs.Visible))
+		nm := cs.Visible[i] + r.Pick([]string{", now", " or so", ", x or y", " or"})
+		dup := false
+		for _, v := range append(append([]string{}, cs.Visible...), cs.Hidden...) {
+			dup = dup || v == nm
+		}
+		if !dup {
+			cs.Visible[i] = nm
+		}
 	}
 	return cs, cell
 }
@@ -361,15 +381,6 @@ func c20Run(c *Ctx) {
 		}
 		return true
 	}
-	parseEnum := func(tail string) []string {
-		// "a, b or c"
-		i := strings.LastIndex(tail, " or ")
-		if i < 0 {
-			return []string{tail}
-		}
-		head, last := tail[:i], tail[i+4:]
-		return append(strings.Split(head, ", "), last)
-	}
 	if !cs.HasWord {
 		if fe.Type != flags.ErrCommandRequired {
 			c.Violate("type:command-required", "no command given: error type %s, want ErrCommandRequired", fe.Type)
@@ -390,11 +401,12 @@ func c20Run(c *Ctx) {
 				c.Violate("enum:format", "message %q does not enumerate the commands", msg)
 				return
 			}
-			items = parseEnum(msg[j+len("one command of: "):])
-			if !eqStrs(items, vis) {
-				c.Violate("enum:content", "enumeration %q is not sorted(visible) %q", items, vis)
+			// (compared as text: a name may itself contain ", " or " or ")
+			if got, want := msg[j+len("one command of: "):], strings.Join(vis[:len(vis)-1], ", ")+" or "+vis[len(vis)-1]; got != want {
+				c.Violate("enum:content", "enumeration %q is not the sorted visible commands %q joined as \"a, b or c\" (%q)", got, vis, want)
 				return
 			}
+			items = vis
 		}
 		if checkHidden(items) {
 			c.Held(cell, fmt.Sprintf("nv=%d nh=%d", len(vis), len(cs.Hidden)))
@@ -508,11 +520,11 @@ func c20Run(c *Ctx) {
 			c.Violate("enum:format", "message %q neither suggests nor enumerates", msg)
 			return
 		}
-		items = parseEnum(msg[j+len("one command of: "):])
-		if !eqStrs(items, vis) {
-			c.Violate("enum:content", "enumeration %q is not sorted(visible) %q", items, vis)
+		if got, want := msg[j+len("one command of: "):], strings.Join(vis[:len(vis)-1], ", ")+" or "+vis[len(vis)-1]; got != want {
+			c.Violate("enum:content", "enumeration %q is not the sorted visible commands %q joined as \"a, b or c\" (%q)", got, vis, want)
 			return
 		}
+		items = vis
 	}
 	if !checkHidden(items) {
 		return
